@@ -44,6 +44,12 @@ DEVIATIONS = {
     'ack_per_key': (['C11'],
                     'a SETTINGS ACK applies one pending value of EVERY key instead of the changes of the one frame it answers '
                     '(ACK of the initial frame applies a later update_settings)'),
+    'header_frame_exceeds_limit': (['C02', 'C29'],
+                                   'the encoded header block is cut into slices of the peer MAX_FRAME_SIZE before the priority fields '
+                                   '(send_headers with priority arguments, 5 octets) or the promised stream id (push_stream, 4 octets) '
+                                   'are put in front of the first slice: with a block of MAX_FRAME_SIZE-4 octets or more the HEADERS / '
+                                   'PUSH_PROMISE frame exceeds the limit; the call then raises AssertionError after the oversized frame '
+                                   'has been written to the output buffer'),
     'sends_before_preamble': (['C01', 'C02'],
                               'every frame-producing call (update_settings, send_headers, ping, ...) succeeds on a connection on which '
                               'initiate_connection has not been called yet and writes its frame in front of the connection preamble: '
